@@ -2923,6 +2923,9 @@ class TensorDictBase(MutableMapping):
             )
         if not isinstance(new_batch_size, torch.Size):
             new_batch_size = torch.Size(new_batch_size)
+        # check first (descending into the nested tensordicts that will have to grow),
+        # so that a rejected assignment leaves every nested batch size untouched
+        self._check_new_batch_size(new_batch_size)
         for key, value in self.items():
             if _is_tensor_collection(type(value)):
                 if len(value.batch_size) < len(new_batch_size):
@@ -2931,7 +2934,6 @@ class TensorDictBase(MutableMapping):
                     self._set_str(
                         key, value, inplace=True, validated=True, non_blocking=False
                     )
-        self._check_new_batch_size(new_batch_size)
         has_names = self._has_names()
         if has_names:
             # if the tensordict has dim names and the new batch-size has more dims,
@@ -11279,6 +11281,20 @@ class TensorDictBase(MutableMapping):
     def _check_new_batch_size(self, new_size: torch.Size) -> None:
         batch_dims = len(new_size)
         for key, tensor in self.items():
+            if (
+                _is_tensor_collection(type(tensor))
+                and len(tensor.batch_size) < batch_dims
+            ):
+                # this nested tensordict will be given the new batch size too:
+                # what matters is that its own content allows it
+                if _pass_through(tensor):
+                    # non-tensor data follow any batch size
+                    continue
+                if not tensor.is_empty():
+                    if _is_tensorclass(type(tensor)):
+                        tensor = tensor._tensordict
+                    tensor._check_new_batch_size(new_size)
+                    continue
             if _shape(tensor)[:batch_dims] != new_size and not (
                 _is_tensor_collection(type(tensor)) and tensor.is_empty()
             ):
